@@ -82,9 +82,6 @@ func (f *forExpander) run() {
 }
 
 func (f *forExpander) NextToken() (token, error) {
-	if f.closed {
-		return token{}, fmt.Errorf("no more tokens")
-	}
 	tok, ok := <-f.tokens
 	if !ok {
 		return token{tokEOF, ""}, nil
@@ -93,9 +90,6 @@ func (f *forExpander) NextToken() (token, error) {
 }
 
 func (f *forExpander) Tokens() ([]token, error) {
-	if f.closed {
-		return nil, fmt.Errorf("no more tokens")
-	}
 	tokens := make([]token, 0)
 	for {
 		tok, ok := <-f.tokens
